@@ -169,6 +169,18 @@ shape_ops!(S8Ops, S8, S8, "S8",
     all: [a:"f32":f32, b:"f32":f32, c:"u8":u8, d:"i8":i8, e:"i32":i32, f:"u32":u32, g:"f64":f64, h:"i64":i64],
     anim: [a, b, c, d, e, f, g, h]);
 
+/// a wide struct: twenty animated fields, its keyframe data alone is several hundred bytes (size-dependent code paths)
+#[derive(Animate, Clone, Debug, Default, PartialEq)]
+pub struct W20 {
+    pub a: f64, pub b: f64, pub c: f64, pub d: f64, pub e: f64, pub f: f64, pub g: f64, pub h: f64, pub i: f64, pub j: f64,
+    pub k: i64, pub l: i64, pub m: i64, pub n: i64, pub o: i64, pub p: i64,
+    pub q: f32, pub r: f32, pub s: f32, pub t: f32,
+}
+shape_ops!(W20Ops, W20, W20, "W20",
+    all: [a:"f64":f64, b:"f64":f64, c:"f64":f64, d:"f64":f64, e:"f64":f64, f:"f64":f64, g:"f64":f64, h:"f64":f64, i:"f64":f64, j:"f64":f64,
+          k:"i64":i64, l:"i64":i64, m:"i64":i64, n:"i64":i64, o:"i64":i64, p:"i64":i64, q:"f32":f32, r:"f32":f32, s:"f32":f32, t:"f32":f32],
+    anim: [a, b, c, d, e, f, g, h, i, j, k, l, m, n, o, p, q, r, s, t]);
+
 /// a subset marked `#[animate]`; the others must never be touched
 #[derive(Animate, Clone, Debug, Default, PartialEq)]
 pub struct Q5 {
